@@ -6,6 +6,7 @@
 // reference PEG interpreter written from doc/files/modules/parse.doxygen (DESIGN.md appendix A).
 // The reference shares no code with fcppt: it works on (std::string, index).
 #pragma once
+#include <cstdio>
 #include <vrt.hpp>
 
 #include <fcppt/make_cref.hpp>
@@ -670,14 +671,46 @@ inline std::vector<std::string> all_strings(std::string const &alphabet, int max
   return out;
 }
 
+// case descriptions must be plain text: bytes outside the printable range are written as \xNN
+inline std::string printable(std::string const &in)
+{
+  std::string o;
+  for (char ch : in)
+  {
+    unsigned char const u = static_cast<unsigned char>(ch);
+    if (u >= 0x20 && u < 0x7f)
+      o += ch;
+    else
+    {
+      char buf[8];
+      std::snprintf(buf, sizeof buf, "\\x%02X", static_cast<unsigned>(u));
+      o += buf;
+    }
+  }
+  return o;
+}
+
 // run one block of ASTs x skippers x inputs
 template <class Ch>
 void run_block(char const *tag, std::vector<ast> const &asts, std::size_t part, std::size_t nparts, std::vector<int> const &skippers,
-               int maxlen_plain, int maxlen_num)
+               int maxlen_plain, int maxlen_num, bool bytes = false)
 {
   using F = family<Ch>;
-  std::vector<std::string> const plain = all_strings("ab ", maxlen_plain);
-  std::vector<std::string> const num = all_strings("ab 1-", maxlen_num);
+  std::vector<std::string> plain = all_strings("ab ", maxlen_plain);
+  std::vector<std::string> num = all_strings("ab 1-", maxlen_num);
+  if (bytes)
+  {
+    // characters outside every grammar's alphabet whose values collide with special values of the stream layer
+    // (0xFF: (char)EOF; 0x00; 0x80: first negative char) before and after every short input: for the reference
+    // they are ordinary characters that no leaf matches
+    for (std::string const &in : all_strings("ab ", 2))
+      for (char b : {static_cast<char>(0xFF), static_cast<char>(0x00), static_cast<char>(0x80)})
+        for (std::string const &x : {in + b, b + in, in + b + b})
+        {
+          plain.push_back(x);
+          num.push_back(x);
+        }
+  }
   std::vector<dyn_skipper<Ch>> sks;
   for (int s : skippers)
     sks.push_back(make_skipper<Ch>(s));
@@ -699,7 +732,7 @@ void run_block(char const *tag, std::vector<ast> const &asts, std::size_t part, 
     for (std::size_t si = 0; si < skippers.size(); ++si)
       for (std::string const &in : inputs)
       {
-        if (!vrt::begin_text(tag, "grammar " + gs + " skipper " + skipper_name(skippers[si]) + " input \"" + in + "\""))
+        if (!vrt::begin_text(tag, "grammar " + gs + " skipper " + skipper_name(skippers[si]) + " input \"" + printable(in) + "\""))
           continue;
         if (!built)
         {
